@@ -719,6 +719,9 @@ def fx_world(eng, st, pname):
                 v = NONE
                 if method == "create":
                     v = P.fresh("int", "storage.create.eid")
+                if method == "update":
+                    v = P.fresh("int", "storage.update.rows")
+                    s_.axiom(v.t >= 0)
                 eff.result = v
                 s_.effects.append(eff)
                 res.append((s_, (VAL, v)))
@@ -732,6 +735,14 @@ def fx_world(eng, st, pname):
                 s_.effects.append(Effect("storage", "storage:read_all", list(a_), {"_held": s_.ghost.get("held", 0)}, rows))
                 return e_.ok(s_, rows)
             methods["read_all"] = read_all
+
+            def read(e_, s_, r_, a_, k_):
+                s_.effects.append(Effect("storage", "storage:read", list(a_), {"_held": s_.ghost.get("held", 0)}, None))
+                res_ = []
+                for s2, (t2, fv) in e_.getattr_v(s_, rows, "get"):
+                    res_.extend(e_.call_value(s2, fv, [a_[1]], {}))
+                return res_
+            methods["read"] = read
         return eng_.ok(s, s.alloc(HObj("opaque", None, meta={"tag": "storage", "methods": methods, "truthy": True})))
 
     fields = {"mgr": w["manager"], "state": w["state"], "p0": w["providers"][0], "p1": w["providers"][1],
